@@ -37,6 +37,10 @@ def cvc5_backend(path, goal, ob):
     t0 = time.time()
     text = "(set-logic ALL)\n" + ob.smt2 + "\n"
     res, why = cvc5_check(text, timeout_s=12)
+    if res == "unknown" and "timeout" in why:
+        # the limit is wall-clock time: on a machine whose cores are all busy a query that takes 3 s alone can exceed it.  One retry with a
+        # budget five times as long keeps the verdict from depending on the load (a query that is really out of reach costs a minute more)
+        res, why = cvc5_check(text, timeout_s=60)
     ob.seconds += time.time() - t0
     ob.smt2 = None
     if res == "unsat":
